@@ -122,15 +122,10 @@ InitType(t, how) ==
     [] t = "BACKEND" -> IF how = "predefined" THEN "REQBACKEND" ELSE "BACKEND"
     [] OTHER         -> t
 \* the initialising assignment itself must be one the tables allow
-InitExists(t, how) == how = "none" \/ (Exists(InitType(t, how), how) /\ AssignOK("=", t, InitType(t, how), how))
+\* (IF, not \/: inside Init TLC explores both sides of a disjunction)
+InitExists(t, how) == IF how = "none" THEN TRUE ELSE Exists(InitType(t, how), how) /\ AssignOK("=", t, InitType(t, how), how)
 RInits(rt, form) == IF form = "local" THEN {h \in InitHows \ {"none"} : InitExists(rt, h)} ELSE {"none"}
 
-OpCells ==
-  {[kind |-> "assign", op |-> op, lt |-> lt, rt |-> rt, form |-> f, linit |-> li, rinit |-> ri] :
-      op \in AssignOps, lt \in LeftKinds, rt \in RightTypes, f \in Forms, li \in InitHows, ri \in InitHows}
-  \cup
-  {[kind |-> "compare", op |-> op, lt |-> lt, rt |-> rt, form |-> f, linit |-> li, rinit |-> ri] :
-      op \in CompareOps, lt \in LeftKinds, rt \in RightTypes, f \in Forms, li \in InitHows, ri \in InitHows}
 OpCellExists(d) == Exists(d.rt, d.form) /\ InitExists(d.lt, d.linit) /\ d.rinit \in RInits(d.rt, d.form)
 
 OpExpect(c) == IF c.kind = "assign" THEN AssignOK(c.op, c.lt, c.rt, c.form) ELSE CompareOK(c.op, c.lt, c.rt, c.form)
@@ -181,7 +176,13 @@ ReturnAllowed(a, S) == \A sc \in S : a \in ReturnActions(sc)
 VARIABLE cell
 vars == << cell >>
 
-InitOps  == cell \in {d \in OpCells : OpCellExists(d)}
+\* (quantifiers, not one big set: TLC evaluates constant-level sets eagerly)
+InitOps  == \E lt \in LeftKinds, rt \in RightTypes, f \in Forms, li \in InitHows, ri \in InitHows :
+               /\ Exists(rt, f) /\ InitExists(lt, li) /\ ri \in RInits(rt, f)
+               /\ \/ \E op \in AssignOps :
+                       cell = [kind |-> "assign", op |-> op, lt |-> lt, rt |-> rt, form |-> f, linit |-> li, rinit |-> ri]
+                  \/ \E op \in CompareOps :
+                       cell = [kind |-> "compare", op |-> op, lt |-> lt, rt |-> rt, form |-> f, linit |-> li, rinit |-> ri]
 InitVars == \E v \in VarTable, acc \in Accesses, S \in ScopeSets :
                /\ InSlice(v.idx + ScopeIdx(S))
                /\ cell = [kind |-> "var", name |-> v.name, access |-> acc, get |-> v.get, set |-> v.set,
